@@ -1191,3 +1191,4 @@ T("C13", "integer-ceil-other-form", ("circuits/_itertools.py", "multiplicities =
 T("C18", "predicate-guard-as-if", ("decompositions/_orquestra_decompositions.py", "        return isinstance(operation, GateOperation) and (", "        if not isinstance(operation, GateOperation):\n            return False\n        return ("))
 B("C14", "empty-batch-lets-nonpositive-count-through", (RUN, '        if (isinstance(n_samples, int) and n_samples <= 0) or any(\n            n <= 0 for n in samples_per_circuit\n        ):', "        if any(n <= 0 for n in samples_per_circuit):"), rule="C14-D1")
 T("C14", "scalar-guard-as-own-statement", (RUN, '        if (isinstance(n_samples, int) and n_samples <= 0) or any(\n            n <= 0 for n in samples_per_circuit\n        ):', "        if isinstance(n_samples, int) and n_samples <= 0:\n            raise ValueError(f\"Number of samples has to be positive, got {n_samples}\")\n        if any(n <= 0 for n in samples_per_circuit):"))
+B("C18", "production-uses-rx-for-ry", ("decompositions/_orquestra_decompositions.py", "gate_decomposition = [RZ(phi), RY(theta), RZ(lambda_)]", "gate_decomposition = [RZ(phi), RZ(theta), RZ(lambda_)]"), rule="C18-D")
